@@ -1,4 +1,6 @@
 """C25 Shortest-path zones (Floyd / Dijkstra / DijkstraCache) compute minimal chains of declared routes; Full returns the declared route."""
+import concurrent.futures as cf
+import multiprocessing
 import os
 import shutil
 import sys
@@ -200,12 +202,15 @@ def build_plat(pid, kind, g0, rng, pre="", f13_absent=True, ask_cone=True):
     p.n_q = p.n_lq = 0
     p.asked = set()
 
-    def ask(a, b):
-        if a in p.hosts and b in p.hosts:
+    def ask(a, b, once=False):
+        """route_to (host pairs only) and get_local_route; once: through one of the two only."""
+        both = a in p.hosts and b in p.hosts
+        if both:
             p.q("Q %s %s" % (a, b))
             p.n_q += 1
-        p.q("LQ %s %s %s" % (zn, a, b))
-        p.n_lq += 1
+        if not (both and once):
+            p.q("LQ %s %s %s" % (zn, a, b))
+            p.n_lq += 1
         p.asked.add((a, b))
 
     if kind == "floyd":
@@ -230,7 +235,7 @@ def build_plat(pid, kind, g0, rng, pre="", f13_absent=True, ask_cone=True):
                 again = list(part)
                 rng.shuffle(again)
                 for a, b in again:
-                    ask(a, b)
+                    ask(a, b, once=True)
         if f13_absent:
             # pairs without any path and self pairs: any answer but a route (resp. any answer) is accepted; not asked while
             # the unfixed Dijkstra zone is known to spin on them
@@ -327,12 +332,16 @@ def check_sp(ctx, p, obs, fl):
     kind = p.kind
     w = witness(p, fl)
     reported = set()
+    cnt = {}           # counters of this platform, flushed once (ctx.count takes a lock)
+
+    def count(name, k=1):
+        cnt[name] = cnt.get(name, 0) + k
 
     def viol(key, what):
         if key not in reported:         # one report per platform and key; every occurrence is counted
             reported.add(key)
-            ctx.violation(key, "%s: %s" % (p.id, what), w)
-        ctx.count("bad_answers")
+            ctx.violation(key, "%s: %s" % (p.id, what() if callable(what) else what), w)
+        count("bad_answers")
 
     for s, d, gs, gd in obs.gateways:
         viol("C25:%s:gateway-on-flat-zone" % kind, "local route %s->%s of a zone without sub-zones reports gateways %r/%r" % (s, d, gs, gd))
@@ -343,12 +352,12 @@ def check_sp(ctx, p, obs, fl):
     npre = len(p.pre)
     for (a, b), ans in obs.answers.items():
         if a == b:
-            ctx.count("self_pairs_seen_not_judged", len(ans))
+            count("self_pairs_seen_not_judged", len(ans))
             continue
         if (a, b) not in p.dist:
             # no chain of declared routes exists: raising is the only answer that is not a made-up route
             for how, links, exc in ans:
-                ctx.count("unreachable_pair_answers")
+                count("unreachable_pair_answers")
                 if links is not None:
                     viol("C25:%s:route-returned-for-pair-without-path" % kind,
                          "%s %s->%s returned %r although no chain of declared routes leads from %s to %s" % (how, a, b, links, a, b))
@@ -361,10 +370,10 @@ def check_sp(ctx, p, obs, fl):
             continue
         feat = (":" + CONE) if (a, b) in p.cone else ""
         want = p.dist[(a, b)]
-        ctx.count("pairs_judged")
+        count("pairs_judged")
         first = None
         for how, links, exc in ans:
-            ctx.count("answers_checked")
+            count("answers_checked")
             if links is None:
                 viol("C25:%s:no-route-for-reachable-pair%s" % (kind, feat),
                      "%s %s->%s raised %r although a chain of declared routes of %d links exists" % (how, a, b, exc, want))
@@ -389,9 +398,9 @@ def check_sp(ctx, p, obs, fl):
                 # the right hops, but the links of each multi-link hop come out in reverse order: own key; the cost is
                 # still compared below
                 viol("C25:%s:hop-links-reversed" % kind,
-                     "%s %s->%s returned %r: the hops %r are declared routes, but the links of every multi-link hop are listed in reverse "
-                     "order (declared %r)" % (how, a, b, links, ch, [p.edges[h] for h in ch]))
-                ctx.count("answers_with_reversed_hop_links")
+                     lambda: "%s %s->%s returned %r: the hops %r are declared routes, but the links of every multi-link hop are listed in "
+                             "reverse order (declared %r)" % (how, a, b, links, ch, [p.edges[h] for h in ch]))
+                count("answers_with_reversed_hop_links")
                 ok = False
             if ch is None:
                 viol("C25:%s:not-a-chain-of-declared-routes%s" % (kind, feat),
@@ -404,7 +413,9 @@ def check_sp(ctx, p, obs, fl):
                 ok = False
             elif len(ch) >= 2:
                 nontriv = True
-                ctx.count("multi_hop_answers")
+                count("multi_hop_answers")
+    for name, k in cnt.items():
+        ctx.count(name, k)
     return ok, nontriv, lens
 
 
@@ -425,6 +436,32 @@ def check_full(ctx, p, obs, fl):
                               % (p.id, how, s, d, links, exc, p.decl[(s, d)]), w)
                 ok = False
     return ok and len(seen) == len(p.decl), len(p.decl) >= 2, {}
+
+
+def _rec(name):
+    def f(self, *a):
+        self.log.append((name,) + a)
+    return f
+
+
+class Recorder:
+    """Stands in for the Ctx inside a worker process: records the calls, which the parent replays on the real Ctx in job
+    order (the python oracle is CPU-bound: threads would serialise it on the interpreter lock)."""
+
+    def __init__(self):
+        self.log = []
+
+    evaluation, nontrivial, count = _rec("evaluation"), _rec("nontrivial"), _rec("count")
+    maximum, sample, inconclusive, violation = _rec("maximum"), _rec("sample"), _rec("inconclusive"), _rec("violation")
+
+
+def _work(args):
+    job, scratch, confirmed = args
+    rec = Recorder()
+    st = Run(rec, scratch)
+    st.cone_spin_confirmed = set(confirmed)
+    st.job(job)
+    return rec.log, st.lens, st.cone_spin_confirmed
 
 
 class Run:
@@ -516,14 +553,16 @@ class Run:
         """job = (flavour, [bundle, ...]) with bundle = [platform, ...]: one harness process (starting an ASan process is
         expensive), one forked child = one engine per bundle."""
         fl, bundles = job
-        if len(bundles) == 1 and len(bundles[0]) == 1:
-            self.single(bundles[0][0], fl)
-            return
+        t0 = time.time()
         bs = [G.Bundle("B-" + members[0].id, members) for members in bundles]
         out = G.run_batch(fl, bs, CPU_Q[fl], WALL, self.scratch)
+        _dbg("job %s %d bundles %d platforms: harness took %.1fs, child cpu %.1fs" % (fl, len(bs), sum(len(b.members) for b in bs), time.time() - t0,
+                                                                                   sum(r.cpu for r in out.values())))
         for b in bs:
             res = out[b.id]
-            if res.status == "ok" and res.done and not res.build_errors:
+            if len(b.members) == 1:
+                self.single(b.members[0], fl, res)
+            elif res.status == "ok" and res.done and not res.build_errors:
                 for p in b.members:
                     self.ctx.evaluation()
                     self.judge(p, Obs(p, res), fl)
@@ -533,6 +572,18 @@ class Run:
                 _dbg("bundle %s (%s) ended with %s done=%s %s %s %s" % (b.id, fl, res.status, res.done, res.spin, res.build_errors[:2], res.noise[:3]))
                 for p in b.members:
                     self.single(p, fl)
+
+    def jobs(self, jobs):
+        """Run the jobs in worker processes; their verdict calls are replayed here in job order."""
+        workers = int(os.environ.get("VERIF_JOBS", os.cpu_count() or 8))
+        args = [(j, self.scratch, sorted(self.cone_spin_confirmed)) for j in jobs]
+        with cf.ProcessPoolExecutor(max_workers=max(1, min(workers, len(args))), mp_context=multiprocessing.get_context("fork")) as ex:
+            results = list(ex.map(_work, args))
+        for log, lens, confirmed in results:
+            for call in log:
+                getattr(self.ctx, call[0])(*call[1:])
+            self.lens.update(lens)
+            self.cone_spin_confirmed |= confirmed
 
     def compare(self, groups):
         """The three algorithms must agree on the link count."""
@@ -580,7 +631,7 @@ def run(ctx):
         name, dg = dgs[0]
         grp = {k: build_plat("%s-%s" % (name, k), k, dg, ctx.sub_rng("directed", name), pre=pre(), f13_absent=False) for k in KINDS}
         groups.append(grp)
-        ctx.pmap(st.job, [("hooks", [[grp[k]]]) for k in KINDS])
+        st.jobs([("hooks", [[grp[k]]]) for k in KINDS])
         _dbg("phase 1 (F13 witness) done")
         f13_absent = not st.cone_spin_confirmed
         ctx.extra["dijkstra_asked_every_pair"] = f13_absent
@@ -614,12 +665,13 @@ def run(ctx):
         order = list(range(len(allp)))
         ctx.sub_rng("bundling").shuffle(order)
         allp = [allp[i] for i in order]
-        jobs = [("hooks", [[p]]) for p in slow]
+        # one harness process per job, one child (engine) per bundle; a platform expected to spin is alone in its child
+        jobs = [("hooks", [[p] for p in ch]) for ch in G.chunks(slow, 5)]
         jobs += [("asan", bs) for bs in G.chunks(G.chunks(first + [p for i, p in enumerate(allp) if i % 7 == 0], 8), 3)]
-        jobs += [("hooks", bs) for bs in G.chunks(G.chunks(first + allp, 8), 3)]
-        _dbg("phase 2 generated: %d jobs" % len(jobs))
-        ctx.pmap(st.job, jobs)
-        _dbg("phase 2 done")
+        jobs += [("hooks", bs) for bs in G.chunks(G.chunks(first + allp, 8), 5)]
+        _dbg("phase 2 generated: %d jobs; python cpu so far %.1fs" % (len(jobs), time.process_time()))
+        st.jobs(jobs)
+        _dbg("phase 2 done; python cpu so far %.1fs" % time.process_time())
         st.compare(groups)
     finally:
         shutil.rmtree(scratch, ignore_errors=True)
